@@ -8,8 +8,8 @@
      code: the C06_refuted_* theorems exhibit programs and schedules whose outcome equals that of
      no sequential order (decided by the in-Coq permutation checker Lin.lin_ok, vm_compute);
    - the "consequently" clauses that DO hold are theorems for every thread count and schedule:
-     C06_excl_mkdir, C06_excl_create. *)
-From Avfs Require Import Base Sched MemConc Lin ExclMkdir Witness.
+     C06_excl_mkdir, C06_excl_create, C06_temp_unique. *)
+From Avfs Require Import Base Sched MemConc Lin ExclMkdir TempUnique Witness.
 
 Definition C06_lin_full : Prop := lin_full.
 
@@ -55,6 +55,20 @@ Proof.
   exact (@excl_no_deadlock h0 dirs nm d (if create then KFile 1 else KDir []) Hres Hdir Habs create eq_refl rnds sched).
 Qed.
 
+(* n threads call MkdirTemp(dirs, pat) (create = false) or CreateTemp(dirs, pat) (create = true) on one
+   tree whose directory [dirs] exists; thread i draws its candidate names from its own stream
+   rnds[i] - ANY streams, colliding or not.  In every state reached by ANY schedule the names
+   returned so far are pairwise distinct: no name is ever handed to two callers. *)
+Theorem C06_temp_unique : forall (h0 : cheap) (dirs : cpath) (pat : cname) (d : nat) (create : bool)
+                                 (rnds : list (list cname)) (sched : list nat),
+  walk_dirs h0 0 dirs = Some d -> k_is_dir h0 d = true ->
+  NoDup (returned (c_th (mc_run sched
+           (mc_init h0 (map (fun _ => [if create then QCreateTemp dirs pat else QMkdirTemp dirs pat]) rnds) rnds)))).
+Proof.
+  intros h0 dirs pat d create rnds sched Hres Hdir.
+  exact (@temp_unique_main h0 dirs pat d create Hres Hdir rnds sched).
+Qed.
+
 (* ---- what is false: witnesses (program + schedule on the tree /a{d/,f} /b{g} /tmp) ------------- *)
 
 (* Mkdir below a directory removed concurrently: both calls succeed, the new directory is lost *)
@@ -89,6 +103,14 @@ Example C06_excl_example :
   walk_dirs tree0 0 [n_a] = Some 1 /\ k_is_dir tree0 1 = true /\ k_lookup tree0 1 n_x = None /\
   mc_finished c = true /\ mc_results c = [[KErr XEEXIST]; [KErr XEEXIST]; [KOk]].
 Proof. vm_compute. repeat split; reflexivity. Qed.
+
+(* three CreateTemp("/a", "t") with identical streams x, r1, r2: all collide on tx, the retry loops sort it out *)
+Example C06_temp_example :
+  let rs := [[n_x; n_y; n_d]; [n_x; n_y; n_d]; [n_x; n_y; n_d]] in
+  let c := mc_exec tree0 (map (fun _ : list cname => [QCreateTemp [n_a] n_tmp]) rs) rs [0; 1; 2; 0; 1; 2; 0; 1; 2; 2; 1; 0] in
+  mc_finished c = true /\
+  returned (c_th c) = [[n_a; n_tmp ++ n_y]; [n_a; n_tmp ++ n_d]; [n_a; n_tmp ++ n_x]].
+Proof. vm_compute. split; reflexivity. Qed.
 
 Example C06_checker_accepts_sequential :
   forallb (fun progs => let c := mc_exec tree0 progs no_rand [] in mc_finished c && lin_ok tree0 progs no_rand c)
